@@ -83,31 +83,56 @@ def run(ctx, rep):
     idc = strip(strip(v[2][0])[2][0]) if ok else ('unknown',)
     ok = ok and idc[0] == 'call' and idc[1] == PD + 'buildpack_id_from_libcnb_dependency' and strip(idc[2][0])[0] == 'param'
     rep.check(ok, 'R1', 'id-parse-propagated', w(ru), 'id parse error propagated (map_err + and_then)', 'replace_libcnb_uri = ' + vstr(v)[:140])
-    c0 = closure_body(prog, sl, v[2][1]) if ok else None
-    good_verbatim = good_lookup = False
-    if c0 is not None:
-        b0 = strip(sl.local(c0, 0))
-        if b0[0] == 'call' and b0[1].endswith('Option::<T>::map_or'):
-            dflt = strip(b0[2][1])
-            inner = strip(dict(dflt[3]).get('0', ('unknown',))) if dflt[0] == 'agg' and dflt[2] == 'Ok' else ('unknown',)
-            good_verbatim = inner[0] == 'param' and inner[1] == ru.path and inner[2] == 0
-            c1 = closure_body(prog, sl, b0[2][2])
-            if c1 is not None:
-                b1 = strip(sl.local(c1, 0))
-                # and_then(cloned(ok_or(get(map, id), MissingBuildpackPath(id))), |p| try_from(p).map_err(..))
-                lk = next((x for x in walk(b1) if x[0] == 'call' and x[1].endswith('::ok_or')), None)
-                if lk is not None:
-                    g = strip(lk[2][0])
-                    e = strip(lk[2][1])
-                    good_lookup = g[0] == 'call' and g[1].endswith('BTreeMap::<K, V, A>::get') and strip(g[2][0])[0] == 'param' and strip(g[2][0])[1] == ru.path and \
-                        strip(g[2][0])[2] == 1 and e[0] == 'agg' and e[2] == 'MissingBuildpackPath' and strip(g[2][1]) == strip(dict(e[3])['0']) and b1[1].endswith('::and_then')
-                    c2 = closure_body(prog, sl, b1[2][1]) if good_lookup else None
-                    b2 = strip(sl.local(c2, 0)) if c2 else ('unknown',)
-                    tf = next((x for x in walk(b2) if x[0] == 'call' and x[1].endswith('try_from')), None)
-                    good_lookup = good_lookup and tf is not None and strip(tf[2][0])[0] == 'param'
+    # The remaining obligations are established over the function together with its closures, so that
+    # `opt.map_or(Ok(dep.clone()), |id| ..)`, `let Some(id) = opt else { return Ok(dep.clone()) }` and `match` are all fine.
+    from .lib.discard import local_fates, verdict as fate_verdict
+    region = [ru] + prog.closures_of(ru)
+    is_dep = lambda x: strip(x)[0] == 'param' and strip(x)[1] == ru.path and strip(x)[2] == 0
+    is_map = lambda x: strip(x)[0] == 'param' and strip(x)[1] == ru.path and strip(x)[2] == 1
+    good_verbatim = False
+    good_lookup = False
+    for g in region:
+        # (a) verbatim clone when the dependency is not a libcnb: reference
+        for c in g.calls:
+            if c.name and c.name.endswith('Option::<T>::map_or') and len(c.args) == 3:
+                dflt = strip(sl.operand(g, c.args[1]))
+                if dflt[0] == 'agg' and dflt[2] == 'Ok' and is_dep(dict(dflt[3]).get('0', ('unknown',))):
+                    good_verbatim = True
+        for bi, b in enumerate(g.blocks):
+            for st in b['s']:
+                if st[0] == '=' and st[2]['r'] == 'agg' and st[2].get('variant') == 'Ok' and st[2].get('adt') == 'std::result::Result':
+                    val = sl._rvalue(g, st[2], set(), 0, None)
+                    if is_dep(dict(val[3]).get('0', ('unknown',))):
+                        none = [cd for cd in conditions(g, bi, sl) if cd.kind == 'variant' and cd.enum == 'std::option::Option' and cd.outcome == frozenset({'None'})]
+                        if none:
+                            good_verbatim = True
+        # (b) lookup in the id -> path map, missing => MissingBuildpackPath(id), propagated; (c) dependency from that path
+        for c in g.calls:
+            if c.name and c.name.endswith('BTreeMap::<K, V, A>::get') and is_map(sl.operand(g, c.args[0])):
+                key = strip(sl.operand(g, c.args[1]))
+                oks = [x for x in g.calls if x.name and x.name.endswith(('::ok_or', '::ok_or_else'))]
+                err_ok = False
+                for x in oks:
+                    ev = sl.operand(g, x.args[1])
+                    aggs = [y for y in walk(ev) if y[0] == 'agg' and y[2] == 'MissingBuildpackPath']
+                    if not aggs and strip(ev)[0] == 'closure' and strip(ev)[1] in prog.fns:
+                        aggs = [y for y in walk(sl.local(prog.fns[strip(ev)[1]], 0)) if y[0] == 'agg' and y[2] == 'MissingBuildpackPath']
+                    if aggs and strip(dict(aggs[0][3])['0']) == key:
+                        err_ok = True
+                fates = local_fates(prog, g, c.dest[0], {}, set(), 0) if c.dest and len(c.dest) == 1 else []
+                prop = fate_verdict(fates) == 'ok'
+                tf_ok = False
+                for g2 in region:
+                    for t in g2.calls:
+                        if t.full and 'PackageDescriptorDependency as std::convert::TryFrom<' in t.full:
+                            av = sl.operand(g2, t.args[0])
+                            from_lookup = any(y[0] == 'call' and y[1].endswith('BTreeMap::<K, V, A>::get') for y in walk(av)) or \
+                                (strip(av)[0] == 'param' and g2.kind == 'Closure' and g2.path != g.path)
+                            tf_ok = tf_ok or from_lookup
+                good_lookup = err_ok and prop and tf_ok
     rep.check(good_verbatim, 'R3', 'pass1/non-libcnb', w(ru), 'non-libcnb dependency => Ok(clone of the input)', 'non-libcnb dependencies are not copied verbatim')
-    rep.check(good_lookup, 'R1', 'lookup-or-error', w(ru), 'id looked up in the map; missing => Err(MissingBuildpackPath(id)); found => dependency from that path',
-              'libcnb: replacement is not map.get(id).ok_or(MissingBuildpackPath(id)) -> try_from(path)')
+    rep.check(good_lookup, 'R1', 'lookup-or-error', w(ru), 'id looked up in the map; missing => Err(MissingBuildpackPath(id)) propagated; found => dependency from that path',
+              'libcnb: replacement is not map.get(id) -> MissingBuildpackPath(id) on absence -> try_from(path)')
     idf = prog.fn(PD + 'buildpack_id_from_libcnb_dependency')
     rep.analysed(idf)
     v = strip(sl.local(idf, 0))
